@@ -49,6 +49,8 @@ def run(run, args):
                "%d bitwise differences, %d beyond tolerance" % (len(res[0]), len(res[1])))
     run.oblige("specification holds on every implementation output", not res[2], "")
     broken = standard_proof_obligations(run, "C15", THEOREMS)
+    # the ladder depends on mass and charge alone: prefix under a smaller request, independent of lambda_factor
+    broken += standard_proof_obligations(run, "C15a", ["C15a_mz_prefix", "C15a_mz_lambda_free", "C15a_nonvacuous"])
     broken += source_corollaries(run, "C15s", ['C15s_length', 'C15s_ladder', 'C15s_count_range', 'C15s_count_public_range', 'C15s_count_least', 'C15s_count_monotone_field', 'C15s_ratio', 'C15s_nonneg_sum', 'C15s_spacing', 'C15s_public'], ('mz', 'poisson'))
     # floating-point level: sum and consecutive ratios in rounded arithmetic, and the binary64 instance of the sum
     broken += standard_proof_obligations(run, "C15f", ["C15_sum_rounded", "C15_ratio_rounded", "C15_sum_binary64", "C15_float_nonvacuous"],
